@@ -8,7 +8,14 @@ pub mod runner;
 pub mod ty;
 pub mod val;
 pub mod machine_out;
+pub mod sha;
+pub mod ast;
+pub mod mjets;
+pub mod eval;
+pub mod gen;
+pub mod prog;
 
+pub mod c05;
 pub mod c10;
 pub mod c11;
 pub mod c13;
